@@ -137,6 +137,15 @@ def vsys_suite(name, pred, quick, thorough, length=50, extra=None):
     }
 
 
+def sys_pred_suite(name, pred, quick, thorough, length=60, extra=None):
+    """pipeline runs for which there is no model (fault placement below the observable wrapper): only the trace
+    predicate - which is model-independent - is evaluated; M is empty by construction"""
+    su = _sys_suite(name, pred, quick, thorough, length, extra)
+    su["eval"] = ("Definition M : list (nat * nat) := [].\nPrint M.\n"
+                  "Definition V := Eval vm_compute in trace_violations %s cases 0.\nPrint V." % pred)
+    return su
+
+
 def hook_suite(name, quick, thorough, length=40, extra=None):
     return {
         "name": name, "cmd": ["hook", "--len", str(length)] + (extra or []),
@@ -254,7 +263,11 @@ SUITES = {
     "C20": {"suites": [sys_suite("c20-sys", "c20_ok", {"n": 25, "shards": 10}, {"n": 200, "shards": 16}, extra=["--faults"]),
                        # every placement of one fault (quick) and of two faults (thorough) over the scheduler's calls of base scenarios
                        sys_suite("c20-sys-exhaustive", "c20_ok", {"n": 0, "shards": 6, "args": ["--exhaustive", "3"]},
-                                 {"n": 0, "shards": 16, "args": ["--exhaustive", "2", "--pairs"]}, length=100)],
+                                 {"n": 0, "shards": 16, "args": ["--exhaustive", "2", "--pairs"]}, length=100),
+                       # the failing MarkAsDispatched is the CORE repository's (before / after taking effect): the observable
+                       # wrapper sees it too. No model follows this placement: the predicate alone is evaluated (F20)
+                       sys_pred_suite("c20-sys-corefaults", "c20_ok", {"n": 40, "shards": 4}, {"n": 200, "shards": 16},
+                                      extra=["--faults", "--core-faults"])],
             "rule": "two suites: random multi-fault schedules (a sixth of the scheduler's calls fails before or after taking effect, alternately with a plain error and a wrapped context.Canceled; failing look-ups inside the hook; dispatches cancelled while waiting for a worker) and, for seeded base scenarios, EVERY placement of one fault (thorough: of two faults) over the scheduler's calls before quiescence, one run per placement; every run ends with a fault-free quiescence phase; distinct = distinct sha1 of the printed label trace"},
     "C07": {"suites": [
         hook_suite("c07-hook", {"n": 40, "shards": 8}, {"n": 400, "shards": 16}),
